@@ -14,7 +14,7 @@ PROP = "C08"
 
 VALUES = [1, 1.5, "s", True, None, [1, "a"], {"k": 1}, "$cv"]  # "$cv" = a variable of the caller (42)
 DEFAULTS = ["d0", 20, [3]]  # declared default of parameter i
-FORMS = ["assign_await", "await", "implicit", "start_match", "activate"]
+FORMS = ["assign_await", "await", "implicit", "start_match", "activate", "activate_twice"]
 
 
 def lit(v):
@@ -92,7 +92,7 @@ def program(k, mask, shape, vals, form, ret):
         f'  $v = "callee"\n'
         f"  $cv = \"callee-local\"\n"
         f"  send Echo({echo}, v=$v)\n"
-        + ("  match Go()\n" if form != "activate" else "")
+        + ("  match Go()\n" if not form.startswith("activate") else "")
         + f'  $v = "callee2"\n'
         + ret_line
     )
@@ -104,6 +104,8 @@ def program(k, mask, shape, vals, form, ret):
         "implicit": f"  callee {args}\n",
         "start_match": f"  start callee {args} as $r\n  match $r.Finished()\n",
         "activate": f"  activate callee {args}\n",
+        # a second activation that differs from the first one only in its first given argument
+        "activate_twice": f"  activate callee {args}\n  activate callee {call_text(shape, second_vals(shape, vals))}\n",
     }[form]
     main = (
         "flow main\n"
@@ -116,6 +118,14 @@ def program(k, mask, shape, vals, form, ret):
         "  match Never()\n"
     )
     return callee + "\n" + sib + "\n" + main
+
+
+def second_vals(shape, vals):
+    given = sorted(set(shape[0]) | set(shape[1]))
+    v2 = list(vals)
+    if given:
+        v2[given[0]] = "other"
+    return v2
 
 
 def expected_binding(k, mask, shape, vals):
@@ -148,6 +158,18 @@ def check(task):
     v2x.step(st, v2x.resolve_event(st, ("start_main",)), [], v2x.UIDS.n)
     res["steps"] += 1
     outs = {e["type"]: e for e in st.outgoing_events}
+    if form == "activate_twice":
+        echoes = [e for e in st.outgoing_events if e["type"] == "Echo"]
+        exp2 = expected_binding(k, mask, shape, second_vals(shape, vals))
+        given = sorted(set(shape[0]) | set(shape[1]))
+        want = [exp] + ([exp2] if given and not same(vals[given[0]], "other") else [])
+        got = [{n: e.get(n) for n in exp} for e in echoes]
+        if len(got) != len(want) or any(not all(same(g[n], w[n]) for n in w) for g, w in zip(got, want)):
+            bad("binding:activate_twice", f"callee {signature_text(k, mask)} activated with `{call_text(shape, vals)}` and then `{call_text(shape, second_vals(shape, vals))}`: "
+                                          f"instances echoed {got}, expected {want}")
+        if "After" not in outs:
+            bad("activate-did-not-return", "no After event after the second activation")
+        return res
     echo = outs.get("Echo")
     if echo is None:
         bad(f"callee-not-started:{form}", f"no Echo event after start; outgoing={list(outs)}")
@@ -191,9 +213,11 @@ def check(task):
 
 def tasks(tier):
     out = []
-    kmax = 2 if tier == "quick" else 3
+    kmax = 3
     for k in range(1, kmax + 1):
         for mask in itertools.product([False, True], repeat=k):
+            if tier == "quick" and k == 3 and mask not in ((False, False, False), (False, True, True), (True, True, True)):
+                continue
             for shape in call_shapes(k, mask):
                 given = sorted(set(shape[0]) | set(shape[1]))
                 if len(given) <= 2:
